@@ -182,6 +182,17 @@ theorem c35_polyline_indices_increasing (c : Cmp D) (h : c.Laws) (dist : P → P
   simp only [List.getElem_zipIdx]
   omega
 
+/-- **C35.T1g** `Within` is the code's test `¬ (dist > eps)`, which a NaN distance passes.  For
+the driver's comparison structure (bit patterns, `none` = NaN) it means: the distance is NaN
+**or** numerically `≤ eps`; when the distance function is NaN-free on the polyline, every
+removed point is numerically within `eps`. -/
+theorem c35_within_natCmp (dist : P → P → P → Option Nat) (eps : Nat) (a b p : P) :
+    Within natCmp dist (some eps) a b p ↔ (dist a b p = none ∨ ∃ d, dist a b p = some d ∧ d ≤ eps) := by
+  unfold Within
+  cases h : dist a b p with
+  | none => simp [natCmp]
+  | some d => simp [natCmp]
+
 /-- Non-vacuity for T1: a concrete run on indices with a table distance (point 2 is far
 from the segment 0–4, the others are close). -/
 example :
@@ -329,8 +340,8 @@ theorem isort_head_min (pt : α → Pt) (le : α → α → Bool) (m : Pt) :
         exact ⟨hd, rfl, hzm⟩
 
 /-- **C35.T2g** The hull starts at the `min_by` point, provided the comparator is total on
-the input and sorts the entries of that point strictly first (the code arranges this by
-giving them the key `f32::MIN`; see the report for when `f32` breaks it: NaN keys). -/
+the input and sorts the entries of that point strictly first (the code gives them the key
+`-inf`; `c35_hullExact_starts_min` discharges both hypotheses for the code's comparator). -/
 theorem c35_hull_starts_min (pt : α → Pt) (le : α → α → Bool) (xs : List α) (m : Pt)
     (hm : minPoint (xs.map pt) = some m)
     (htot : ∀ x ∈ xs, ∀ y ∈ xs, le x y = true ∨ le y x = true)
@@ -363,6 +374,20 @@ theorem c35_hullExact_starts_min (pts : List Pt) (m : Pt) (hm : minPoint pts = s
     simp only [id] at hx hy
     simp [exactLe, hx, hy]
 
+/-- **C35.T2a/b for the code's comparator** (instances of the generic theorems): the hull of
+`convex_hull` uses only input points and every three consecutive hull points turn strictly
+left. -/
+theorem c35_hullExact_subset_turns (pts : List Pt) :
+    (∀ q ∈ hullExact pts, q ∈ pts) ∧
+    ∀ pre post a b c, hullExact pts = pre ++ a :: b :: c :: post → cross a b c > 0 := by
+  unfold hullExact
+  cases hm : minPoint pts with
+  | none => exact ⟨fun q hq => by simp at hq, fun pre post a b c h => by simp at h⟩
+  | some m =>
+    refine ⟨fun q hq => ?_, fun pre post a b c h => c35_hull_turns id (exactLe m) pts pre post a b c h⟩
+    obtain ⟨x, hx, rfl⟩ := c35_hull_subset id (exactLe m) pts q hq
+    exact hx
+
 /-- The hull of a square with an interior point, a duplicate and collinear edge points is the four corners. -/
 example :
     hullExact [(0, 0), (2, 0), (4, 0), (4, 4), (0, 4), (2, 2), (4, 4), (2, 4)] =
@@ -370,15 +395,23 @@ example :
 
 /-! ## S3 containment (bounded) -/
 
-/-- All input points lie on or to the left of every hull edge, including the closing edge
-(`last → first`); together with T2b this is convexity + containment. Degenerate hulls
-(< 3 points) are required to have all points collinear with them. -/
+/-- The full S3 statement as a decidable check: all input points lie on or to the left of every
+hull edge including the closing edge (`last → first`), and all cyclic triples turn strictly
+left.  A 1-point hull must equal every input point; a 2-point hull must have distinct ends and
+every input point on the segment between them. -/
 def edgesOk (hull pts : List Pt) : Bool :=
   match hull with
   | [] => pts.isEmpty
-  | h0 :: _ =>
+  | [a] => pts.all fun p => p == a
+  | [a, b] => a != b && pts.all fun p =>
+      decide (cross a b p = 0) &&
+      decide (min a.1 b.1 ≤ p.1 ∧ p.1 ≤ max a.1 b.1 ∧ min a.2 b.2 ≤ p.2 ∧ p.2 ≤ max a.2 b.2)
+  | h0 :: h1 :: _ =>
     let closed := hull ++ [h0]
-    (closed.zip (closed.drop 1)).all fun e => pts.all fun p => decide (cross e.1 e.2 p ≥ 0)
+    ((closed.zip (closed.drop 1)).all fun e => pts.all fun p => decide (cross e.1 e.2 p ≥ 0)) &&
+    -- strict left turns around the whole cycle, including the two triples through the closing edge
+    (let cyc := hull ++ [h0, h1]
+     (cyc.zip ((cyc.drop 1).zip (cyc.drop 2))).all fun t => decide (cross t.1 t.2.1 t.2.2 > 0))
 
 /-- Decode `n` into a list of `len` points of the 3×3 grid. -/
 def gridPts : Nat → Nat → List Pt
